@@ -619,6 +619,19 @@ func registerMisc() {
 		var cell value = i.zero(i.lookupType("math/rand", "Rand"))
 		return &cell
 	}
+	intrinsics["github.com/google/uuid.New"] = func(i *Interp, fr *frame, fn *ssa.Function, args []value) value {
+		// a fresh, path-deterministic identifier (randomness is irrelevant to the properties)
+		n, _ := i.side["uuid-counter"].(int)
+		n++
+		i.side["uuid-counter"] = n
+		a := make(array, 16)
+		for k := range a {
+			a[k] = i.ctx.Const(bv8, 0)
+		}
+		a[15] = i.ctx.Const(bv8, uint64(n))
+		a[14] = i.ctx.Const(bv8, uint64(n>>8))
+		return a
+	}
 	intrinsics["sort.Slice"] = func(i *Interp, fr *frame, fn *ssa.Function, args []value) value {
 		i.sortSlice(fr, args[0].(iface), args[1])
 		return nil
